@@ -32,8 +32,8 @@ CLAIMED = {
         technique="same engine invariant as C01 (token exclusivity, put only of not-yet-enqueued nodes), queue contracts, all_ancestors loop invariant, prune_plan composition",
         text="Proved: fn(node) is called at most once per token and a node is put only if it is not already enqueued (G3/G4 with the cardinality lemmas), for all interleavings; "
              "all_ancestors returns a predecessor-closed set inside Anc(S) that contains S; prune_plan removes exactly the complement; run passes required_nodes=[] without a registry.",
-        note="'Anc(S) is contained in every predecessor-closed superset of S' (L-REACH, proved in Lean) and the completion lemma (every enabled node is eventually processed) are stated lemmas; the second sentence of the property "
-             "additionally rests on the bounded probe for completion. Termination of all_ancestors is not proved.",
+        note="'Anc(S) is contained in every predecessor-closed superset of S' (L-REACH, proved in Lean) and the completion lemma are lemmas over the contracts: 'when the run returns normally every node of the pruned graph was processed' is discharged by z3 (contracts/completion.py, rank-induction step from the engine invariants at quiescence); "
+             "that the run returns at all is liveness (not proved). Termination of all_ancestors is not proved.",
     ),
     "C05": dict(
         technique='contract verification of the stale check against the declarative out-of-date spec (symbolic times, z3), of plan_with_value_stores (write set) and of _add_value_store (no write node for fresh entries); lemma H4 (after a successful run nothing is out of date) over the contracts',
